@@ -56,6 +56,12 @@ func (m *expirationMap[_]) add(key, conflict uint64, expiration time.Time) {
 	m.Lock()
 	defer m.Unlock()
 
+	// A bucket that has already been cleaned up is never visited again. Register a late
+	// arrival in the next bucket to be cleaned up, so that it is still reclaimed.
+	if bucketNum <= m.lastCleanedBucketNum {
+		bucketNum = m.lastCleanedBucketNum + 1
+	}
+
 	b, ok := m.buckets[bucketNum]
 	if !ok {
 		b = make(bucket)
@@ -84,6 +90,10 @@ func (m *expirationMap[_]) update(key, conflict uint64, oldExpTime, newExpTime t
 	}
 
 	newBucketNum := storageBucket(newExpTime)
+	// See add: never register in a bucket that has already been cleaned up.
+	if newBucketNum <= m.lastCleanedBucketNum {
+		newBucketNum = m.lastCleanedBucketNum + 1
+	}
 	newBucket, ok := m.buckets[newBucketNum]
 	if !ok {
 		newBucket = make(bucket)
